@@ -38,24 +38,22 @@ def run(ctx):
               "family": "each of the 4 leaves absent or one of %s, bottom-up" % ("3 matrices" if quick else "all 81 matrices over {U,1,3}")}]
     tasks += base.plan_binding(ctx, "C14", PLAN, PARALLEL_PLAN, only_fits=True, builder_runs=14 if quick else 150,
                                allow_keepu=False, rewrite_p=0.35)
-    jobs = []
-    for t, recs in base.run_tasks(ctx, tasks):
-        if "expr" in t:
-            step = 1 if quick else 7
-            for i, rec in enumerate(recs):
-                if i % step:
-                    continue
-                meta = base.enum_meta(rec, i, ctx.scratch)
-                has_root = any(tl["pos"] == [0, 0, 0] for tl in rec["final"])
-                if has_root and i % 2 == 0:
-                    meta["run"] = "builder"
-                jobs.append((meta, rec))
-        else:
-            jobs += base.jobs_for(ctx, t["cases"], recs)
+    def enum_jobs(t, recs):
+        js = []
+        step = 1 if quick else 7
+        for i, rec in enumerate(recs):
+            if i % step:
+                continue
+            meta = base.enum_meta(rec, i, ctx.scratch)
+            has_root = any(tl["pos"] == [0, 0, 0] for tl in rec["final"])
+            if has_root and i % 2 == 0:
+                meta["run"] = "builder"
+            js.append((meta, rec))
+        return js
+    jobs, results = base.run_pipeline(ctx, tasks, enum_jobs)
     ctx.exhaustive = False
     if not jobs:
         ctx.machinery("no cases")
-    results = base.replay_all(ctx, jobs)
     base.report(ctx, "C14", jobs, results)
     nb = len([1 for m, _r in jobs if m["run"].startswith("builder")])
     ctx.note("replayed", {"cases": len(jobs), "builder_runs_with_imageset_and_wtml": nb,
